@@ -34,6 +34,19 @@
  * build reports out-of-bounds accesses as the supervisor's crash/...
  */
 #include "vdrv.h"
+
+/* The sort keeps a cache[512] on its stack.  Whatever an earlier call left there must not decide the outcome of
+ * a case (a case has to replay alone): fill the stack region below us with a fixed pattern before every sort. */
+static __attribute__((noinline)) void
+poison_stack(void)
+{
+	volatile unsigned char pad[96 * 1024];
+	for (size_t i = 0; i < sizeof(pad); i += 8) {
+		pad[i] = 0xa5, pad[i + 1] = 0x5a, pad[i + 2] = 0xa5, pad[i + 3] = 0x5a;
+		pad[i + 4] = 0xa5, pad[i + 5] = 0x5a, pad[i + 6] = 0xa5, pad[i + 7] = 0x5a;
+	}
+	__asm__ volatile("" : : "r"(pad) : "memory");
+}
 #include <stdbool.h>
 #include <math.h>
 #include <setjmp.h>
@@ -392,8 +405,10 @@ run(int kind, const struct alph_s *a, size_t n, const char *grp, const char *fam
 	}
 	in_sort = 1;
 	if (kind == K_INST) {
+		poison_stack();
 		echs_instant_sort((echs_instant_t*)w, n);
 	} else {
+		poison_stack();
 		echs_event_sort((echs_event_t*)w, n);
 	}
 	in_sort = 0;
